@@ -6,6 +6,7 @@
    handlers are filed under negative keys), and reaches the task loop otherwise. *)
 From FMP Require Import Base.Bytes Base.Lts Model.Events Model.Skeleton Model.Props Model.Receiver
      Proofs.ReceiverProofs Proofs.SkeletonProofs.
+From FMP Require Import Model.Paths Proofs.PathProofs.
 From FMP Require Import Model.CodecCfg Proofs.CodecCfgProofs.
 Open Scope Z_scope.
 
@@ -67,6 +68,10 @@ Proof. eexists. split; [vm_compute; reflexivity | split; vm_compute; reflexivity
 Theorem C09_task_loop_cancels_its_table_on_stop : cdf_taskloop_cancels codecfacts_now = true.
 Proof. exact codec_taskloop_cancels. Qed.
 
+(* on every path through the function body as it is in the source now (regenerated into Generated.body_census, enumerated by Model/Paths.v) of receiveHandler.taskLoop: it leaves only through the stop arm, closing after cancelling; the begin arm cancels nobody; the cancel / end arms call at most the one cancel function they looked up and delete one key *)
+Theorem C09_source_taskloop_paths : taskloop_paths = true.
+Proof. exact paths_taskloop. Qed.
+
 Print Assumptions C09_cancelled_only_for_own_reasons.
 Print Assumptions C09_close_cancels_all.
 Print Assumptions C09_taskloop_exits_only_after_stop.
@@ -76,3 +81,4 @@ Print Assumptions C09_shared_key_refuted.
 Print Assumptions C09_shared_key_close_refuted.
 Print Assumptions C09_negative_cancel_refuted.
 Print Assumptions C09_task_loop_cancels_its_table_on_stop.
+Print Assumptions C09_source_taskloop_paths.
